@@ -1,6 +1,7 @@
 """Evaluation of contract clauses (the spec language is a Python-expression subset evaluated by
 the same evaluator as the code, in `spec` mode) and frame (modifies) handling."""
 import ast
+import re
 
 import z3
 
@@ -425,7 +426,7 @@ def havoc(ex, fr, modifies, tag, base_alloc=None, written=None, collect=False, l
     new_alloc = ex.fresh(f"ALLOC_{tag}", z3.ArraySort(REF, BOOL))
     o = z3.Const(f"o?{next(ex.cnt)}", REF)
     # both directions trigger: intermediate versions are partly store equations, which E-matching does not walk upwards
-    ex.assume(z3.ForAll([o], z3.Implies(old_alloc[o], new_alloc[o]), patterns=[old_alloc[o], new_alloc[o]]))
+    ex.assume(z3.ForAll([o], z3.Implies(old_alloc[o], new_alloc[o]), patterns=[old_alloc[o], new_alloc[o]], qid="alloc_mono"))
     ex.alloc = new_alloc
     lconds = mod_conditions(ex, fr, local_frame) if local_frame is not None else None
     for key in sorted(ex.heap.keys()):
@@ -447,7 +448,7 @@ def havoc(ex, fr, modifies, tag, base_alloc=None, written=None, collect=False, l
             # may change (checked at the end of the body: loop_frame_obligations); objects created inside the loop are free
             lcs = [c(o) for (p, c) in lconds if field_matches(p, field)]
             may = z3.Or([c(o) for c in cs] + [z3.And(z3.Not(esc_alloc[o]), z3.Or([z3.Not(old_alloc[o])] + lcs))])
-        ex.assume(z3.ForAll([o], z3.Implies(z3.Not(may), nm[o] == m[o]), patterns=[nm[o]]))
+        ex.assume(z3.ForAll([o], z3.Implies(z3.Not(may), nm[o] == m[o]), patterns=[nm[o]], qid="havoc_" + re.sub(r"[^A-Za-z0-9_]", "_", field)))
         ex.heap[key] = nm
     ex.good_heap()
 
